@@ -174,7 +174,15 @@ func runCheck(args []string) int {
 		results = append(results, verifyLemma(p, l, timeout))
 	}
 
-	// smoke (vacuity) checks
+	// smoke (vacuity) checks, for functions all of whose obligations were discharged
+	failingFn := map[string]bool{}
+	for _, r := range results {
+		for _, o := range r.Obls {
+			if o.Result != "unsat" {
+				failingFn[r.Name] = true
+			}
+		}
+	}
 	{
 		var swg sync.WaitGroup
 		vac := make([]string, len(names))
@@ -183,6 +191,9 @@ func runCheck(args []string) int {
 			swg.Add(1)
 			go func() {
 				defer swg.Done()
+				if failingFn[name] {
+					return
+				}
 				if msg := smoke(p, p.funcs[name], p.cs.Funcs[name]); msg != "" {
 					vac[i] = fmt.Sprintf("VACUOUS-CONTRACT: %s: %s", name, msg)
 				}
@@ -434,6 +445,14 @@ func smoke(p *Program, fn *ssa.Function, fc *FuncC) string {
 	r := solve(pre+"(check-sat)\n", 2, "z3-5.1.0")
 	if r.Result == "unsat" {
 		return "the requires clauses (with the typing facts) are contradictory"
+	}
+	// some return must be reachable with all assumptions made on the way and all obligations holding
+	if len(e.retGuards) > 0 {
+		q := e.script() + fmt.Sprintf("(assert %s)\n(assert %s)\n(check-sat)\n", e.okCur, tOr(e.retGuards...).S)
+		r := solve(q, 3, "")
+		if r.Result == "unsat" {
+			return "no return is reachable under the assumed contracts (contradictory assumptions on the way)"
+		}
 	}
 	return ""
 }
